@@ -296,8 +296,8 @@ def run_topology(idx, spec):
             # a probe outside the connection's window gets. It may show in a fraction of the runs only (it needs another
             # connection's SYN-ACK to be captured first), so it is sampled: reported when it shows again in 6 more attempts.
             sack_ok = spec.get("port_open") and not spec.get("tcp_sack_off") and not spec.get("dest_filtered")
-            claims_no_sack = lambda r: r["rc"] != 0 and "no SACK options" in r.get("stderr_full", "")
-            if proto == "tcp" and method == "sack" and sack_ok and not RACE and spec["queries"] > 1 and not bad:
+            claims_no_sack = lambda r: r["rc"] != 0 and ("no SACK options" in r.get("stderr_full", "") or "missing SACK-permitted" in r.get("stderr_full", ""))
+            if proto == "tcp" and method == "sack" and sack_ok and not RACE and (spec["queries"] > 1 or spec["e2e"] > 0) and not bad:
                 # several SACK runs to one target at once: whether a run meets a foreign SYN-ACK first is a matter of
                 # timing, so a clean first attempt is followed by two more looks
                 for _ in range(2):
@@ -315,7 +315,7 @@ def run_topology(idx, spec):
                     if claims_no_sack(r2):
                         seen += 1
                 if seen >= 2:
-                    bad = ["in %d of %d attempts the tool reported that the target acknowledges without SACK blocks, but the target's kernel has SACK enabled and the port is open (that is how a receiver answers a probe outside the connection's window)" % (seen, total)]
+                    bad = ["in %d of %d attempts the tool reported that the target does not do SACK (no SACK-permitted in the handshake, or acknowledgements without SACK blocks), but the target's kernel has SACK enabled and the port is open (a handshake taken from another connection's SYN-ACK, or probes outside the connection's window, look like that)" % (seen, total)]
                     cli_failed = True
             while bad and attempts < 3 and not cli_failed:
                 attempts += 1
@@ -389,7 +389,7 @@ def main():
         specs = [ff["scenario"]]
     else:
         rng = random.Random(SEED * 7919 + 13)
-        n = 7 if TIER == "quick" else 60
+        n = 8 if TIER == "quick" else 60
         n = int(os.environ.get("VERIF_C13_TOPOLOGIES", n))
         specs = [gen_spec(rng, i) for i in range(n)]
         # always include the fixed regression shapes
@@ -405,6 +405,11 @@ def main():
             # several SACK runs to one target and nothing else going on: every capture handle sees every run's SYN-ACK
             specs[4] = {"routers": 2, "port": 443, "port_open": True, "tcp_sack_off": False, "silent": [], "max_ttl_delta": 1, "queries": 3, "e2e": 0,
                         "protos": ["tcp:sack", "tcp:prefer_sack", "tcp:sack"], "timeout_ms": 500, "concurrent_cli": False}
+        if len(specs) > 5:
+            # SACK runs next to end-to-end SYN probes to the same target: the target's SYN-ACK to an option-less SYN
+            # (no SACK-permitted) is captured by every SACK run that is in its handshake at that moment
+            specs[5] = {"routers": 2, "port": 443, "port_open": True, "tcp_sack_off": False, "silent": [], "max_ttl_delta": 1, "queries": 3, "e2e": 3,
+                        "protos": ["tcp:sack", "tcp:sack", "tcp:prefer_sack"], "timeout_ms": 500, "concurrent_cli": False}
         if len(specs) > 2:
             specs[2] = {"routers": 4, "port": 80, "port_open": False, "tcp_sack_off": False, "silent": [1, 3], "max_ttl_delta": -1, "queries": 3, "e2e": 1,
                         "protos": ["tcp:syn", "tcp:prefer_sack", "icmp", "udp"], "timeout_ms": 300, "concurrent_cli": False}
